@@ -63,7 +63,12 @@ def run(res, props_file, pinned, tag, what):
         "evaluations": len(all_cases),
         "distinct_nontrivial": len(nontrivial),
         "rule": "three domains drive the real signer: nodeops (new/setup/forget channel, heartbeat, allowlist add/remove/set with "
-                "and without an unparsable entry, keysend approvals, refused channel requests, restarts; 6..30 requests), chan "
+                "and without an unparsable entry, keysend approvals, refused channel requests and set-ups (node calls and protocol messages), "
+                "restarts; 6..30 requests; one case in three on the transactional store CloudKVVStore<MemoryKVVStore> the way the daemon "
+                "drives it -- enter, one to three requests, prepare, the reported records go to a cloud replica with its version rule, "
+                "commit -- with a signer restored at each crash point: between prepare and commit (old local store brought up to date "
+                "from the cloud), after commit from the local store, and on another host from the cloud copy alone; the committed "
+                "local store must equal the cloud copy and a refused request must report no mutation), chan "
                 "(the channel request alphabet of C01-C03 incl. handler composites, debug and release builds, plus a scripted "
                 "corpus) and pay (multi-channel commitment updates with HTLCs).  Around EVERY request: " + what + "; "
                 "non-trivial (nodeops) = has a restart, a refusal and an accepted forget; distinct by full history",
